@@ -256,6 +256,24 @@ def discharge(ob, want_smt=False):
         if r2 in ("unsat", "sat"):
             res["result"] = r2
             res["backend"] = "cvc5-1.0.3 (after z3 unknown)"
+        else:
+            # both solvers ran out of time: once more with three times the budget (a loaded machine must not flip a verdict to undecided)
+            s3 = z3.Solver()
+            s3.set("timeout", 3 * Z3_TIMEOUT_MS)
+            s3.add(*ob.pc)
+            s3.add(z3.Not(goal))
+            t3 = time.time()
+            try:
+                r3 = str(s3.check())
+            except z3.Z3Exception:
+                r3 = "unknown"
+            res["time"] = round(res["time"] + time.time() - t3, 4)
+            if r3 in ("unsat", "sat"):
+                res["result"] = r3
+                res["backend"] = "z3-" + z3.get_version_string() + " (second attempt, 3x budget)"
+                if r3 == "sat":
+                    res["model"] = model_to_dict(s3.model())
+                    res["goal"] = goal.sexpr()[:1500]
     if want_smt:
         res["smt_head"] = goal.sexpr()[:600]
     return res
